@@ -3,6 +3,7 @@ mod checks_e1;
 mod checks_e2;
 mod e1;
 mod e2;
+mod e2h;
 mod e3;
 mod e4;
 mod e5;
@@ -244,6 +245,10 @@ fn replay(path: &str) -> i32 {
         "E1" => {
             let r = e1::run_history(e1::profile(d["profile"].as_str().unwrap_or("c01")), u("case_seed").unwrap_or(1));
             found = r.findings.into_iter().filter(|f| f.props.iter().any(|p| *p == prop)).map(|f| f.signature).collect();
+        }
+        "E2" if d["mode"] == "c02-http" => {
+            let r = e2h::http_round(u("round_seed").unwrap_or(1));
+            found = r["violations"].as_array().cloned().unwrap_or_default().iter().filter_map(|x| x["signature"].as_str().map(|s| s.to_string())).collect();
         }
         "E2" => {
             let out = std::process::Command::new(session::self_exe()).arg("e2-round").arg(d["mode"].as_str().unwrap_or("c02")).arg(u("round_seed").unwrap_or(1).to_string()).output();
